@@ -108,17 +108,25 @@ func VerifC15_Subset() {
 	// selectors: a subset of {[k1],[k2],[k1,k2]}
 	var sel [][]string
 	var hasSel [3]bool
+	longFirst := false // the two-key selector is listed before the one-key selector that is its sorted prefix
 	if verif.Tier() == 0 {
-		switch verif.Choose("selectors", 4) { // quick: {}, {[k1]}, {[k1,k2]}, {[k1],[k2]}
+		switch verif.Choose("selectors", 5) { // quick: {}, {[k1]}, {[k1,k2]}, {[k1],[k2]}, {[k1,k2],[k1]}
 		case 1:
 			hasSel[0] = true
 		case 2:
 			hasSel[2] = true
 		case 3:
 			hasSel[0], hasSel[1] = true, true
+		case 4:
+			hasSel[0], hasSel[2] = true, true
+			longFirst = true
 		}
 	} else {
 		hasSel = [3]bool{verif.Choose("sel_k1", 2) == 1, verif.Choose("sel_k2", 2) == 1, verif.Choose("sel_k1k2", 2) == 1}
+		longFirst = verif.Choose("long_selector_first", 2) == 1
+	}
+	if longFirst && hasSel[2] {
+		sel = append(sel, []string{"k2", "k1"})
 	}
 	if hasSel[0] {
 		sel = append(sel, []string{"k1"})
@@ -126,7 +134,7 @@ func VerifC15_Subset() {
 	if hasSel[1] {
 		sel = append(sel, []string{"k2"})
 	}
-	if hasSel[2] {
+	if hasSel[2] && !longFirst {
 		sel = append(sel, []string{"k2", "k1"})
 	}
 	policy := verif.Choose("fallback", 3) // 0 none, 1 any, 2 default subset
